@@ -82,29 +82,32 @@ def gen_plan(prop, run_seed, tier):
     return dict(engine="gibbssim", prop=prop, rows=rows, extra_samples=extra_samples, extra_conds=extra_conds,
                 all_samples=samples, all_conds=conds, D=w.randint(1, 4), n_steps=s.randint(1, 5 if tier == "quick" else 30),
                 seed=s.randrange(2**31), chol_rate=f.choice([0.0, 0.0, 0.1]), extreme_rate=f.choice([0.0, 0.0, 0.05, 0.3]),
-                fault_seed=f.randrange(2**31))
+                fault_seed=f.randrange(2**31),
+                cuts=(sorted(w.sample(range(0, n_rows + 1), min(n_rows + 1, w.randint(1, 2)))) if w.random() < 0.35 and n_rows else []),
+                cut_gap=w.randint(1, 2))
 
 
 def _screens(plan):
-    """Training screen (all observed) whose mappings also list conditions without data."""
+    """The universe screen (its mappings also list conditions without data) and a factory for
+    fully observed screens over a row range of the training rows."""
     from batchie.data import Screen
 
     rows = [list(r) for r in plan["rows"]]
     universe = list(rows)
-    k = 0
     for smp in plan["all_samples"] + plan["extra_samples"]:
         for c in plan["all_conds"] + plan["extra_conds"]:
             universe.append([smp, [[c[0], c[1]], ["", 0.0]], 0.5, "zz_universe", False])
-            k += 1
     full = gen.make_screen(dict(control="", arity=2, rows=universe))
-    n = len(rows)
-    if n == 0:
-        return full, None
-    train = Screen(treatment_names=full.treatment_names[:n], treatment_doses=full.treatment_doses[:n],
-                   sample_names=full.sample_names[:n], plate_names=full.plate_names[:n],
-                   observations=full.observations[:n], observation_mask=np.ones(n, dtype=bool),
-                   control_treatment_name="", treatment_mapping=full.treatment_mapping, sample_mapping=full.sample_mapping)
-    return full, train
+
+    def part(lo, hi):
+        if hi <= lo:
+            return None
+        return Screen(treatment_names=full.treatment_names[lo:hi], treatment_doses=full.treatment_doses[lo:hi],
+                      sample_names=full.sample_names[lo:hi], plate_names=full.plate_names[lo:hi],
+                      observations=full.observations[lo:hi], observation_mask=np.ones(hi - lo, dtype=bool),
+                      control_treatment_name="", treatment_mapping=full.treatment_mapping, sample_mapping=full.sample_mapping)
+
+    return full, part
 
 
 # ---------------------------------------------------------------------------- seam
@@ -521,17 +524,37 @@ def _run(plan, log, stats, violation):
     import batchie.models.sparse_combo as SC
     from batchie.data import ExperimentSpace
 
-    full, train = _screens(plan)
+    full, part = _screens(plan)
     es = ExperimentSpace.from_screen(full)
     model = SC.SparseDrugCombo(experiment_space=es, n_embedding_dimensions=plan["D"])
-    if train is not None:
+    n_rows = len(plan["rows"])
+    # observations arrive in batches between sampler steps (no reset in between): add_at[step] = rows [lo, hi)
+    cuts = sorted(set(min(n_rows, c) for c in plan.get("cuts", [])) | {n_rows})
+    add_at = {}
+    lo = 0
+    for k, hi in enumerate(cuts):
+        step_k = 0 if k == 0 else min(k * max(1, plan.get("cut_gap", 1)), plan["n_steps"] - 1)
+        prev = add_at.get(step_k)
+        add_at[step_k] = (prev[0] if prev else lo, hi)
+        lo = hi
+
+    def add_rows(lo, hi):
+        chunk = part(lo, hi)
+        if chunk is None:
+            return True
         try:
-            model.add_observations(train)
+            model.add_observations(chunk)
         except Exception as e:
             log.ev("add-observations-raised", type(e).__name__)
-            return
+            return False
+        return True
+
+    first = add_at.get(0, (0, 0))
+    if not add_rows(*first):
+        return
+    have = first[1]
     wm = model.wrapped_model
-    mon = Monitor(plan, model, train, log, stats, violation)
+    mon = Monitor(plan, model, part(0, have), log, stats, violation)
     model.set_rng(SeamRng(mon, "generator"))
     orig_np, orig_mvn = SC.np, SC.sample_mvn_from_precision
 
@@ -557,6 +580,14 @@ def _run(plan, log, stats, violation):
     SC.sample_mvn_from_precision = mvn
     try:
         for step in range(plan["n_steps"]):
+            if step > 0 and step in add_at:
+                lo_, hi_ = add_at[step]
+                if not add_rows(lo_, hi_):
+                    break
+                have = hi_
+                mon.train = part(0, have)
+                stats.probe("observations_added_between_steps")
+                mon.flags.add("incremental-data")
             mon.blocks_seen = []
             mon.mag_max = None  # the cache is rebuilt from scratch at the start of every step
             try:
@@ -573,6 +604,7 @@ def _run(plan, log, stats, violation):
             # exported posterior sample reproduces the fitted values and the noise precision
             stats.oracle_evals += 1
             th = model.get_model_state()
+            train = mon.train
             if train is not None:
                 pm = np.asarray(th.predict_conditional_mean(train), dtype=float)
                 mag = mon.magnitude()
